@@ -14,6 +14,7 @@ Events:
    ("ack", n)                an ACK frame with ack sequence n arrives
    ("rsp", kind)             the response frame of kind's command arrives
    ("rsp2", kind1, kind2)    two response frames arrive in one read chunk
+   ("listen", kind)          the application registers an indication callback for kind's response command
    ("data",)                 an unrelated indication arrives
    ("tick", ms)              virtual time advances
    ("cancel", rid)           the caller cancels request rid (task.cancel())
@@ -214,6 +215,16 @@ class Runner:
             b1 = response_bytes(ev[1], self.rx_seq)
             self.rx_seq = self.rx_seq % 3 + 1
             proto.data_received(b1 + response_bytes(ev[2], self.rx_seq))
+        elif k == "listen":
+            # the application registers a callback for the response command of `kind` (any field values): legal, and it
+            # must not change what the waiting requests get
+            helper = get_cls(KINDS[ev[1]][0])
+            self.callbacks = getattr(self, "callbacks", 0)
+
+            def cb(_cmd, _self=self):
+                _self.callbacks += 1
+            api.register_indication_listener(helper.Rsp(partial=True), cb)
+            self.n_callback_listeners = getattr(self, "n_callback_listeners", 0) + 1
         elif k == "data":
             self.rx_seq = self.rx_seq % 3 + 1
             proto.data_received(build_frame_bytes(0x00020600, b"\x01\x02", 0xC0 | (self.rx_seq << 2)))
@@ -265,7 +276,9 @@ class Runner:
         return self._collect()
 
     def listeners(self):
-        return sum(len(v) for v in self.api._listeners.values())
+        # one-shot waiters only: callbacks registered by ("listen", kind) stay registered by design
+        from zigpy_zboss.utils import OneShotResponseListener
+        return sum(1 for v in self.api._listeners.values() for x in v if isinstance(x, OneShotResponseListener))
 
 
 def run_scenario(events):
